@@ -306,4 +306,278 @@ theorem timeToHttp_length (t : Nat) (h : t < T_MAX) : (timeToHttp t).length = 29
   generalize t / 86400 + EPOCH_ORD = ord
   exact render_length_from ymd (t % 86400) ord hv.1 hv.2.1
 
+/-! ## the other direction: every calendar date, every accepted string -/
+
+theorem div4_step (z : Nat) : (z + 1) / 4 = z / 4 + (if (z + 1) % 4 = 0 then 1 else 0) := by
+  split <;> omega
+theorem div100_step (z : Nat) : (z + 1) / 100 = z / 100 + (if (z + 1) % 100 = 0 then 1 else 0) := by
+  split <;> omega
+theorem div400_step (z : Nat) : (z + 1) / 400 = z / 400 + (if (z + 1) % 400 = 0 then 1 else 0) := by
+  split <;> omega
+
+theorem dby_step (y : Nat) (h : 1 ≤ y) :
+    daysBeforeYear (y + 1) = daysBeforeYear y + 365 + (if y % 4 = 0 ∧ (y % 100 ≠ 0 ∨ y % 400 = 0) then 1 else 0) := by
+  unfold daysBeforeYear
+  have e : y + 1 - 1 = y := by omega
+  rw [e]
+  obtain ⟨z, rfl⟩ : ∃ z, y = z + 1 := ⟨y - 1, by omega⟩
+  have e2 : z + 1 - 1 = z := by omega
+  rw [e2, div4_step, div100_step, div400_step]
+  have hle : z / 100 ≤ z / 4 := Nat.div_le_div_left (by decide) (by decide)
+  have h400_100 : (z + 1) % 400 = 0 → (z + 1) % 100 = 0 := by omega
+  have h100_4 : (z + 1) % 100 = 0 → (z + 1) % 4 = 0 := by omega
+  generalize z / 4 = a at *
+  generalize z / 100 = b at *
+  generalize z / 400 = c at *
+  by_cases h4 : (z + 1) % 4 = 0 <;> by_cases h100 : (z + 1) % 100 = 0 <;> by_cases h400 : (z + 1) % 400 = 0 <;>
+    simp only [h4, h100, h400, if_true, if_false, true_and, false_and, not_true_eq_false, not_false_eq_true,
+      or_true, or_false, false_or, true_or, ne_eq] <;> first | omega | (exfalso; omega)
+
+theorem dby_mono (y y' : Nat) (h1 : 1 ≤ y) (h : y ≤ y') : daysBeforeYear y ≤ daysBeforeYear y' := by
+  induction y' with
+  | zero => omega
+  | succ n ih =>
+    by_cases hn : y = n + 1
+    · subst hn; exact Nat.le_refl _
+    · have := ih (by omega)
+      have := dby_step n (by omega)
+      omega
+
+theorem dby_succ_leap (y : Nat) (h : 1 ≤ y) :
+    daysBeforeYear (y + 1) = daysBeforeYear y + (if isLeap y = true then 366 else 365) := by
+  rw [dby_step y h]
+  by_cases hl : isLeap y = true
+  · rw [if_pos hl, if_pos ((isLeap_iff y).1 hl)]
+  · rw [if_neg hl, if_neg (fun h' => hl ((isLeap_iff y).2 h'))]
+
+/-- a valid month/day lies within its year -/
+theorem dbm_bound : ∀ (leap : Bool) (m : Nat), m < 13 → 1 ≤ m → ∀ d, d < 32 → 1 ≤ d → d ≤ daysInMonth leap m →
+    daysBeforeMonth leap m + d ≤ (if leap = true then 366 else 365) := by
+  decide +kernel
+
+theorem dbm_next : ∀ (leap : Bool) (m : Nat), m < 12 → 1 ≤ m →
+    daysBeforeMonth leap m + daysInMonth leap m = daysBeforeMonth leap (m + 1) := by
+  decide +kernel
+
+theorem dbm_mono : ∀ (leap : Bool) (m : Nat), m < 13 → 1 ≤ m → ∀ m', m' < 13 → m ≤ m' →
+    daysBeforeMonth leap m ≤ daysBeforeMonth leap m' := by
+  decide +kernel
+
+theorem dim_le (leap : Bool) (m : Nat) : daysInMonth leap m ≤ 31 := by
+  unfold daysInMonth; split <;> (try split) <;> omega
+
+/-- a date of the calendar -/
+structure ValidDate (y m d : Nat) : Prop where
+  y1 : 1 ≤ y
+  m1 : 1 ≤ m
+  m12 : m ≤ 12
+  d1 : 1 ≤ d
+  dn : d ≤ daysInMonth (isLeap y) m
+
+theorem ymd2ord_range (y m d : Nat) (h : ValidDate y m d) :
+    daysBeforeYear y < ymd2ord y m d ∧ ymd2ord y m d ≤ daysBeforeYear (y + 1) := by
+  have h31 := dim_le (isLeap y) m
+  have hb := dbm_bound (isLeap y) m (by have := h.m12; omega) h.m1 d (by have := h.dn; omega) h.d1 h.dn
+  rw [dby_succ_leap y h.y1]
+  unfold ymd2ord
+  have hd := h.d1
+  generalize daysBeforeMonth (isLeap y) m = q at *
+  generalize (if isLeap y = true then 366 else 365) = L at *
+  omega
+
+theorem ymd2ord_inj (y m d y' m' d' : Nat) (h : ValidDate y m d) (h' : ValidDate y' m' d')
+    (he : ymd2ord y m d = ymd2ord y' m' d') : y = y' ∧ m = m' ∧ d = d' := by
+  have r := ymd2ord_range y m d h
+  have r' := ymd2ord_range y' m' d' h'
+  have hy : y = y' := by
+    rcases Nat.lt_trichotomy y y' with hlt | heq | hgt
+    · have := dby_mono (y + 1) y' (by omega) hlt; omega
+    · exact heq
+    · have := dby_mono (y' + 1) y (by omega) hgt; omega
+  subst hy
+  unfold ymd2ord at he
+  have hm : m = m' := by
+    rcases Nat.lt_trichotomy m m' with hlt | heq | hgt
+    · have h1 := dbm_next (isLeap y) m (by have := h'.m12; omega) h.m1
+      have h2 := dbm_mono (isLeap y) (m + 1) (by have := h'.m12; omega) (by omega) m' (by have := h'.m12; omega) hlt
+      have := h.dn; have := h'.d1; omega
+    · exact heq
+    · have h1 := dbm_next (isLeap y) m' (by have := h.m12; omega) h'.m1
+      have h2 := dbm_mono (isLeap y) (m' + 1) (by have := h.m12; omega) (by omega) m (by have := h.m12; omega) hgt
+      have := h'.dn; have := h.d1; omega
+  subst hm
+  exact ⟨rfl, rfl, by omega⟩
+
+theorem ord2ymd_year_pos (ord : Nat) (h : 1 ≤ ord) : 1 ≤ (ord2ymd ord).1 := by
+  rw [ord2ymd_eq]
+  simp only
+  have hd := decomp (ord - 1)
+  generalize (ord - 1) / 146097 = a at hd ⊢
+  generalize (ord - 1) % 146097 / 36524 = b at hd ⊢
+  generalize (ord - 1) % 146097 % 36524 / 1461 = c at hd ⊢
+  generalize (ord - 1) % 146097 % 36524 % 1461 / 365 = d at hd ⊢
+  generalize (ord - 1) % 146097 % 36524 % 1461 % 365 = r at hd ⊢
+  split
+  · rename_i hsp
+    simp only [Bool.or_eq_true, beq_iff_eq] at hsp
+    simp only
+    omega
+  · simp only; omega
+
+/-- **the other inverse**: `_ord2ymd(_ymd2ord(y, m, d)) = (y, m, d)` for every date of the calendar -/
+theorem ymd_roundtrip (y m d : Nat) (h : ValidDate y m d) : ord2ymd (ymd2ord y m d) = (y, m, d) := by
+  have hpos : 1 ≤ ymd2ord y m d := by have := (ymd2ord_range y m d h).1; omega
+  have hr := ord_roundtrip (ymd2ord y m d) hpos
+  have hv := ord2ymd_valid (ymd2ord y m d) hpos
+  have hy := ord2ymd_year_pos (ymd2ord y m d) hpos
+  generalize ord2ymd (ymd2ord y m d) = r at hr hv hy
+  obtain ⟨y', m', d'⟩ := r
+  have := ymd2ord_inj y' m' d' y m d ⟨hy, hv.1, hv.2.1, hv.2.2.1, hv.2.2.2⟩ h hr
+  obtain ⟨rfl, rfl, rfl⟩ := this
+  rfl
+
+
+/-! ### parsing is sound: a string that parses spells the time it parses to -/
+
+theorem digitVal_digit (c : Char) (n : Nat) (h : digitVal c = some n) : n < 10 ∧ c = digit n := by
+  unfold digitVal at h
+  split at h
+  · rename_i hc
+    cases h
+    obtain ⟨h0, h9⟩ := hc
+    have h0' : 48 ≤ c.toNat := h0
+    have h9' : c.toNat ≤ 57 := h9
+    refine ⟨by omega, ?_⟩
+    unfold digit
+    have : 48 + (c.toNat - 48) % 10 = c.toNat := by omega
+    rw [this]
+    exact (Char.ofNat_toNat c).symm
+  · cases h
+
+theorem num2_pad2_inv (a b : Char) (n : Nat) (h : num2 a b = some n) : n < 100 ∧ [a, b] = pad2 n := by
+  unfold num2 at h
+  cases ha : digitVal a with
+  | none => simp [ha] at h
+  | some x =>
+    cases hb : digitVal b with
+    | none => simp [ha, hb] at h
+    | some y =>
+      simp [ha, hb] at h
+      obtain ⟨hx, rfl⟩ := digitVal_digit a x ha
+      obtain ⟨hy, rfl⟩ := digitVal_digit b y hb
+      subst h
+      refine ⟨by omega, ?_⟩
+      unfold pad2
+      rw [digit_congr ((x * 10 + y) / 10) x (by omega), digit_congr (x * 10 + y) y (by omega)]
+
+theorem num4_pad4_inv (a b c d : Char) (n : Nat) (h : num4 a b c d = some n) : n < 10000 ∧ [a, b, c, d] = pad4 n := by
+  unfold num4 at h
+  cases h1 : num2 a b with
+  | none => simp [h1] at h
+  | some x =>
+    cases h2 : num2 c d with
+    | none => simp [h1, h2] at h
+    | some y =>
+      simp [h1, h2] at h
+      obtain ⟨hx, e1⟩ := num2_pad2_inv a b x h1
+      obtain ⟨hy, e2⟩ := num2_pad2_inv c d y h2
+      subst h
+      refine ⟨by omega, ?_⟩
+      unfold pad2 at e1 e2
+      unfold pad4
+      simp only [List.cons.injEq, and_true] at e1 e2
+      obtain ⟨rfl, rfl⟩ := e1
+      obtain ⟨rfl, rfl⟩ := e2
+      rw [digit_congr ((x * 100 + y) / 1000) (x / 10) (by omega), digit_congr ((x * 100 + y) / 100) x (by omega),
+        digit_congr ((x * 100 + y) / 10) (y / 10) (by omega), digit_congr (x * 100 + y) y (by omega)]
+
+theorem nameIdx_getD (names : List Str) (s : Str) (i : Nat) (h : nameIdx names s = some i) :
+    i < names.length ∧ names.getD i [] = s := by
+  unfold nameIdx at h
+  simp only at h
+  split at h
+  · rename_i hlt
+    cases h
+    refine ⟨hlt, ?_⟩
+    have := List.findIdx_getElem (w := hlt)
+    simp only [beq_iff_eq] at this
+    simp only [List.getD_eq_getElem?_getD, List.getElem?_eq_getElem hlt, Option.getD_some]
+    exact this
+  · cases h
+
+
+/-- the civil time of `t` with the day name replaced (the parser does not cross-check the day name) -/
+def civilW (t w : Nat) : Civil :=
+  ⟨(civilOf t).year, (civilOf t).month, (civilOf t).day, (civilOf t).hour, (civilOf t).minute, (civilOf t).second, w⟩
+
+theorem civilFrom_eq (y m d s ord : Nat) :
+    civilFrom (y, m, d) s ord = ⟨y, m, d, s / 3600, s % 3600 / 60, s % 60, (ord + 6) % 7⟩ := rfl
+
+theorem civilW_eq (t w y m d : Nat) (h : ord2ymd (t / 86400 + EPOCH_ORD) = (y, m, d)) :
+    civilW t w = ⟨y, m, d, t % 86400 / 3600, t % 86400 % 3600 / 60, t % 86400 % 60, w⟩ := by
+  unfold civilW civilOf
+  rw [h, civilFrom_eq]
+
+theorem dby_1970 : daysBeforeYear 1970 = 719162 := by decide
+
+/-- **parsing is sound**: a string that `http_to_time` (canonical shape) accepts is the rendering of
+    the second it returns, except possibly for the day name, which the parser does not cross-check -/
+theorem parse_sound (s : Str) (t : Nat) (h : httpToTime s = .ok t) :
+    ∃ w, w < 7 ∧ s = render (civilW t w) := by
+  unfold httpToTime at h
+  split at h
+  · rename_i w1 w2 w3 d1 d2 m1 m2 m3 y1 y2 y3 y4 h1 h2 n1 n2 s1 s2
+    split at h
+    · rename_i wi mi d y hh mm ss hw hm hd hy hh' hmm hss
+      split at h
+      · cases h
+      · split at h
+        · cases h
+        · split at h
+          · cases h
+          · rename_i hs60 hy70 hbad
+            simp only [PRes.ok.injEq] at h
+            have hd0 : d ≠ 0 := fun e => hbad (Or.inl e)
+            have hdn : d ≤ daysInMonth (isLeap y) (mi + 1) := by
+              apply Classical.byContradiction; intro hc; exact hbad (Or.inr (Or.inl (by omega)))
+            have hh24 : hh < 24 := by
+              apply Classical.byContradiction; intro hc; exact hbad (Or.inr (Or.inr (Or.inl (by omega))))
+            have hm60 : mm < 60 := by
+              apply Classical.byContradiction; intro hc; exact hbad (Or.inr (Or.inr (Or.inr (by omega))))
+            have hs60' : ss < 60 := by omega
+            obtain ⟨hwl, hwe⟩ := nameIdx_getD dayNames _ wi hw
+            obtain ⟨hml, hme⟩ := nameIdx_getD monthNames _ mi hm
+            have hml' : mi < 12 := hml
+            obtain ⟨_, hde⟩ := num2_pad2_inv d1 d2 d hd
+            obtain ⟨_, hye⟩ := num4_pad4_inv y1 y2 y3 y4 y hy
+            obtain ⟨_, hhe⟩ := num2_pad2_inv h1 h2 hh hh'
+            obtain ⟨_, hne⟩ := num2_pad2_inv n1 n2 mm hmm
+            obtain ⟨_, hse⟩ := num2_pad2_inv s1 s2 ss hss
+            have hvalid : ValidDate y (mi + 1) d := ⟨by omega, by omega, by omega, by omega, hdn⟩
+            have hrt := ymd_roundtrip y (mi + 1) d hvalid
+            have hrange := (ymd2ord_range y (mi + 1) d hvalid).1
+            have hmono := dby_mono 1970 y (by omega) (by omega)
+            rw [dby_1970] at hmono
+            -- the timestamp decomposes back into day number and second of the day
+            have hday : t / 86400 + EPOCH_ORD = ymd2ord y (mi + 1) d := by
+              rw [← h]; unfold timestampOf EPOCH_ORD
+              generalize ymd2ord y (mi + 1) d = o at hrange ⊢
+              omega
+            have hsec : t % 86400 = hh * 3600 + mm * 60 + ss := by
+              rw [← h]; unfold timestampOf
+              generalize (ymd2ord y (mi + 1) d - EPOCH_ORD) = q
+              omega
+            refine ⟨wi, hwl, ?_⟩
+            rw [civilW_eq t wi y (mi + 1) d (by rw [hday, hrt])]
+            unfold render
+            simp only [Nat.add_sub_cancel, hwe, hme, ← hde, ← hye]
+            have e1 : pad2 (t % 86400 / 3600) = [h1, h2] := by rw [hhe, hsec]; congr 1; omega
+            have e2 : pad2 (t % 86400 % 3600 / 60) = [n1, n2] := by rw [hne, hsec]; congr 1; omega
+            have e3 : pad2 (t % 86400 % 60) = [s1, s2] := by rw [hse, hsec]; congr 1; omega
+            rw [e1, e2, e3]
+            rfl
+    · cases h
+  · cases h
+
+
 end Poor.Date
